@@ -308,19 +308,46 @@ func shrink(t *testing.T, sc *Scenario, tape []int, sig string, tier string, bud
 		}
 		return false
 	}
-	// drop trailing zeros implicitly: exhausted tape reads 0
+	lower := func(from, to int) bool {
+		any := false
+		for i := from; i < to && i < len(cur) && tries < maxCand; i++ {
+			for cur[i] > 0 && tries < maxCand {
+				cand := append([]int(nil), cur...)
+				cand[i] = 0
+				if try(cand) {
+					any = true
+					break
+				}
+				cand = append([]int(nil), cur...)
+				cand[i] = cur[i] / 2
+				if cand[i] == cur[i] || !try(cand) {
+					cand = append([]int(nil), cur...)
+					cand[i] = cur[i] - 1
+					if !try(cand) {
+						break
+					}
+				}
+				any = true
+			}
+		}
+		return any
+	}
 	improved := true
 	for improved && tries < maxCand && time.Now().Before(deadline) {
 		improved = false
+		// 0. the head of the tape holds sizes and counts: lower those first
+		if lower(0, 24) {
+			improved = true
+		}
 		// 1. truncate
 		for n := len(cur) / 2; n >= 1; n /= 2 {
-			if len(cur) > n && try(cur[:len(cur)-n]) {
+			for len(cur) > n && try(cur[:len(cur)-n]) {
 				improved = true
 			}
 		}
 		// 2. delete spans
-		for size := 8; size >= 1; size /= 2 {
-			for i := 4; i+size <= len(cur); {
+		for size := 16; size >= 1; size /= 2 {
+			for i := 3; i+size <= len(cur); {
 				cand := append(append([]int(nil), cur[:i]...), cur[i+size:]...)
 				if try(cand) {
 					improved = true
@@ -333,8 +360,8 @@ func shrink(t *testing.T, sc *Scenario, tape []int, sig string, tier string, bud
 			}
 		}
 		// 3. zero spans
-		for size := 16; size >= 1; size /= 2 {
-			for i := 4; i+size <= len(cur); i += size {
+		for size := 16; size >= 2; size /= 2 {
+			for i := 3; i+size <= len(cur); i += size {
 				allZero := true
 				for _, v := range cur[i : i+size] {
 					if v != 0 {
@@ -356,15 +383,9 @@ func shrink(t *testing.T, sc *Scenario, tape []int, sig string, tier string, bud
 				}
 			}
 		}
-		// 4. lower values
-		for i := 0; i < len(cur) && tries < maxCand; i++ {
-			if cur[i] > 0 {
-				cand := append([]int(nil), cur...)
-				cand[i] = cur[i] / 2
-				if try(cand) {
-					improved = true
-				}
-			}
+		// 4. lower the rest
+		if lower(24, len(cur)) {
+			improved = true
 		}
 	}
 	// strip trailing zeros
